@@ -16,8 +16,9 @@ class G:
     """One generation run: wraps `draw` and carries the counters that make names unique."""
 
     def __init__(self, draw, *, flat=False, macros=False, max_stmts=40, max_depth=4, pos_marks=True, strings="simple",
-                 labels=True, coro_file=None, with_control=False):
+                 labels=True, coro_file=None, with_control=False, may_be_rejected=False):
         self.draw = draw
+        self.may_be_rejected = may_be_rejected
         # with-blocks around jumps / calls / control statements: accepted by the language, but what a jump executed
         # "in the context of" an entity does is not specified - only checks whose oracle does not need the machine
         # semantics switch this on
@@ -73,6 +74,10 @@ class G:
     def dec_value(self):
         whole = self.pick(["0", "1", "12", "63", ""])
         frac = self.pick(["5", "0", "25", "996", "50", "05", "125"])
+        if self.b(1, 6):
+            # sizes: many decimal places (runs of nines / zeros), whole parts beyond the precision of a double
+            whole = self.pick(["0", "1", "127", "9007199254740993", "123456789012345678901234", "0"])
+            frac = self.pick(["9" * 17, "0000001", "00000025", "0" * 8, "9999999999999999", "12345678901234567890", "5" + "0" * 12, "000000000000000000001"])
         if whole == "" and self.b():
             whole = "0"
         neg = "-" if self.b(1, 3) else ""
@@ -276,6 +281,12 @@ class G:
             if self.budget <= 0:
                 break
             out.append(self.stmt(depth, in_loop, in_case))
+        if not self.flat and self.b(1, 24):
+            # a run of 2-4 control statements at the end of a block (everything behind the first is dead code, the
+            # compiler drops redundant jumps one after the other)
+            c = self.lone_control(in_loop, in_case)
+            if c is not None:
+                out += [dict(c) for _ in range(self.i(2, 4))]
         if self.use_labels and self.cur_routine is not None and self.b(1, 3 if self.side_boost else 12):
             out += self.side_entry(in_loop, in_case)
         elif self.b(1, 16):
@@ -420,7 +431,7 @@ class G:
                 else:
                     body = body + [{"k": "ctl", "v": "break"}]
             else:
-                if not last and self.b(1, 4):
+                if (not last and self.b(1, 4)) or (last and self.may_be_rejected and self.b(1, 40)):
                     body = []
                 elif self.b(1, 6):
                     body = [{"k": "ctl", "v": "break"}]  # anchor shape: case with only break
@@ -438,7 +449,9 @@ class G:
             for c in cases:
                 if c["head"] and c["head"]["ch"] == "val":
                     c["head"]["v"] = self.pick([{"t": "int", "v": self.i(0, 3)}, {"t": "const", "v": self.pick(T.DUNGEON_MODE_CONSTANTS)}])
-        if cases and not cases[-1]["body"]:
+        if cases and not cases[-1]["body"] and not (self.may_be_rejected and self.b(1, 2)):
+            # (a switch that ends in an empty case / default is rejected by the compiler: only checks that count
+            # rejections instead of failing on them ask for it - if it is ever accepted, it has to mean "nothing")
             cases[-1]["body"] = [self.op()]
         return {"k": "switch", "head": head, "cases": cases}
 
@@ -615,8 +628,8 @@ class G:
 
 
 @st.composite
-def programs(draw, flat=False, max_stmts=40, pos_marks=True, labels=True, with_control=False):
-    g = G(draw, flat=flat, max_stmts=max_stmts, pos_marks=pos_marks, labels=labels, with_control=with_control)
+def programs(draw, flat=False, max_stmts=40, pos_marks=True, labels=True, with_control=False, may_be_rejected=False):
+    g = G(draw, flat=flat, max_stmts=max_stmts, pos_marks=pos_marks, labels=labels, with_control=with_control, may_be_rejected=may_be_rejected)
     return {"imports": [], "macros": [], "routines": g.routines()}
 
 
